@@ -71,13 +71,15 @@ TEXTS = {
                     'strings into rows of 2-3 blocks: commits into different blocks overlap inside Apply; the in-latch logger gives the apply order per block.',
             'note': _NOTE, 'technique': _T},
     'C10': {'text': 'Latch.tla models writer and reader at single-column grain: NoTornRead and Exclusion hold with the read latch and '
-                    'TLC finds a torn read without it (negative control run on every check). On the real code, 16-core stress: writers '
+                    'TLC finds a torn read without it (negative control run on every check); LatchInd.tla: an inductive invariant discharged with Apalache '
+                    'shows NoTornRead for any number of versions (negative control: RLock without its guard). On the real code, 16-core stress: writers '
                     'keep (a, b, s) = (k, 2k, "v"k) across three columns of different kinds (also two rows of different blocks in one '
                     'transaction); readers (QueryAt, Range, filtered Range) report the distinct triples read inside one callback (millions '
                     'of reads per run), each must be a committed version (Ascend readers too: as built they run without the latch and do see torn rows - '
                     'known finding D-ascend-no-latch, excused exactly for them); deterministic probes: with a writer parked inside the logger '
                     'callback a reader of that block must not complete, a reader of another block must.',
-            'note': _NOTE + ' The torn-read search is statistical (real parallelism); the probes are deterministic.', 'technique': _T},
+            'note': _NOTE + ' The torn-read search is statistical (real parallelism); the probes are deterministic.',
+            'technique': _T + '; Apalache (inductive invariant of the latch protocol)'},
     'C11': {'text': 'NoCollision, OccupiedIsLive, FillAccounting, NoStaleValues are model-checked for 2 concurrent writers inserting '
                     'and deleting over 3 offsets in 2 blocks; on the real code every offset an insert returns must be free in the '
                     'model (sequential histories over fragmented fill patterns across word and block boundaries, all capacities; '
